@@ -127,7 +127,7 @@ fn run_intro() -> Sweep {
     })
 }
 
-fn run_lead() -> Sweep {
+pub fn run_lead() -> Sweep {
     let vals16 = [0u16, 1, 0xFFFF];
     let vals8 = [3u8, 0, 0xFF];
     let rad = [3u64, 3, 3, 3, 3, 3, 4, 2, 6];
@@ -241,6 +241,37 @@ fn run_declared_sizes() -> Sweep {
 }
 
 /// Headers with entries behind the immutable region (the region trailer covers fewer entries than the index holds).
+/// Headers without any index entry but with a data section; and every truncation of a package whose headers carry no region.
+pub fn run_empty_and_truncated() -> Sweep {
+    // (a) 2 headers × store length; (b) truncations of one no-region package
+    let lens = [0usize, 1, 7, 8, 9, 16, 17];
+    let main = RawHeader::layout(&[(1003, Val::Int32(vec![7])), (1004, Val::i18n(&["s"])), (1000, Val::str("a-last-string-without-region"))]);
+    let sig = RawHeader::layout(&[(1000, Val::Int32(vec![1])), (273, Val::str("0123456789abcdef"))]);
+    let (whole, _) = assemble(&RawLead::new("n"), &sig, 0, &main, b"pay");
+    let na = (lens.len() * 2) as u64;
+    let n = na + whole.len() as u64 + 1;
+    Sweep::new("empty-index-and-truncations", format!("(a) signature / main header with NO index entry and a data section of {:?} bytes; (b) every truncation 0..={} of a hand-encoded package whose headers carry no region entry (the data section ends with a string): whatever the parser accepts must round-trip byte for byte and report true offsets", lens, whole.len()), n, move |i, acc| {
+        acc.evals += 1;
+        let x: Vec<u8> = if i < na {
+            let in_sig = i % 2 == 1;
+            let len = lens[(i / 2) as usize];
+            let h = RawHeader::new(vec![], (0..len).map(|k| 0x41 + k as u8).collect());
+            if in_sig { assemble(&RawLead::new("n"), &h, 0, &minimal_main(), b"pay").0 } else { assemble(&RawLead::new("n"), &minimal_sig(), 0, &h, b"pay").0 }
+        } else {
+            whole[..(i - na) as usize].to_vec()
+        };
+        let case = || json!({"bytes_hex": vlib::hex(&x), "varied": if i < na { "header without index entries, with data section".to_string() } else { format!("no-region package truncated to {} of {} bytes", i - na, whole.len()) }});
+        match oracle_roundtrip("empty-index-and-truncations", &x, i, &case, acc) {
+            Some(p) => {
+                acc.nontrivial += 1;
+                oracle_offsets("empty-index-and-truncations", &p, i, &case, acc);
+                acc.count("accepted");
+            }
+            None => acc.count("rejected by the parser (not judged)"),
+        }
+    })
+}
+
 pub fn run_dribble() -> Sweep {
     let extras: Vec<Vec<(u32, Val)>> = vec![
         vec![],
@@ -370,6 +401,7 @@ pub fn sweeps(ctx: &Ctx) -> Vec<Sweep> {
     v.push(run_declared_sizes());
     v.push(run_dribble());
     v.push(run_unknown_types());
+    v.push(run_empty_and_truncated());
     v
 }
 
